@@ -76,6 +76,11 @@ def run(tier, seed, replay):
             rec = {"clause": cl, "kind": c["ev"], "fmt": c.get("fmt", ""), "case": {k: c[k] for k in c if k not in ("text",)}}
             if line - 1 < len(case_list):
                 rec["replay_case"] = case_list[line - 1]
+            elif c.get("tiles_stored"):
+                # a PMTiles root-limit case: the document of the first PMTiles case next to the first k tiles of the boundary family
+                tmpl = next((x for x in case_list if x["k"] == "tilejson" and x["fmt"] == "pmtiles" and x["doc"].get("vl") == 1), None)
+                if tmpl is not None:
+                    rec["replay_case"] = dict(tmpl, cov=[8, 8], root_limit_tiles=c["tiles_stored"])
             run.failure(rec)
     run.traces += s["cases"]
     run.evaluations += s["cases"]
